@@ -258,6 +258,14 @@ def oracle_C10(tier):
             tmpl = in_context(ctx, 'pre \\k{v} %@@' + eol + ('post \\k{w}' if eol else ''))
             for p in payloads:
                 cases.append((tmpl, p, ctx[2], eol))
+            # the comment directly after every kind of preceding token
+            for before in ('pre \\%', 'pre \\&', 'pre \\k', 'pre \\k{v}', 'pre x', 'pre \\\\',
+                           'pre \\k[o]', 'pre %c\n'):
+                if 'math' in ctx[2] and before.endswith('&'):
+                    pass
+                tmpl2 = in_context(ctx, before + '%@@' + eol + ('post \\k{w}' if eol else ''))
+                for p in payloads[:12] + payloads[-6:]:
+                    cases.append((tmpl2, p, ctx[2], eol))
     res = Result('oracle-C10')
     for r in pmap(_c10_chunk, chunked(cases, NPROC * 2)):
         res.merge(r)
